@@ -363,3 +363,94 @@ contract(SOL + "capillary_rise.py", "capillary_rise",
          },
          assigns=["NewCond.th[*]"],
          props=("C01", "C03", "C04", "C19", "C12", "C16"))
+
+# ----------------------------------------------------------------------------- evap_layer_water_content
+_REWLB = "1000 * (prof.th_fc[0] - prof.th_dry[0]) * min({z}, prof.dz[0])"
+contract(SOL + "evap_layer_water_content.py", "evap_layer_water_content",
+         params=dict(InitCond_th=_PA, InitCond_EvapZ="Real", prof=OBJ("SoilProfile")),
+         ghost=GHOST_N,
+         requires=WF() + ["forall(j, 0, n, prof.th_dry[j] <= InitCond_th[j])", "InitCond_EvapZ > 0", "InitCond_EvapZ <= prof.dzsum[n-1]"],
+         returns=[(x, "Real") for x in ("Wevap_Sat", "Wevap_Fc", "Wevap_Wp", "Wevap_Dry", "Wevap_Act")],
+         ensures=[
+             ("C03.evap_layer_order", "0 <= Wevap_Dry and Wevap_Dry < Wevap_Wp and Wevap_Wp < Wevap_Fc and Wevap_Fc < Wevap_Sat"),
+             ("C03.evap_layer_act", "Wevap_Dry <= Wevap_Act"),
+             ("C03.evap_layer_rew_room", "Wevap_Fc - Wevap_Dry >= " + _REWLB.format(z="InitCond_EvapZ")),
+         ],
+         loops={"L1": dict(invariant=[
+             ("order", "0 <= Wevap_Dry and Wevap_Dry <= Wevap_Wp and Wevap_Wp <= Wevap_Fc and Wevap_Fc <= Wevap_Sat"),
+             ("strict", "implies(ii >= 1, Wevap_Dry < Wevap_Wp and Wevap_Wp < Wevap_Fc and Wevap_Fc < Wevap_Sat)"),
+             ("act", "Wevap_Dry <= Wevap_Act"),
+             ("room", "implies(ii >= 1, Wevap_Fc - Wevap_Dry >= " + _REWLB.format(z="InitCond_EvapZ") + ")"),
+             ("cs", "1 <= comp_sto and comp_sto <= n"),
+         ])},
+         assigns=[],
+         props=("C03", "C12", "C16"))
+
+# ----------------------------------------------------------------------------- soil_evaporation
+_SE_P = dict(ClockStruct_EvapTimeSteps="Int", ClockStruct_SimOffSeason="Bool", ClockStruct_TimeStepCounter="Int", prof=OBJ("SoilProfile"),
+             Soil_EvapZmin="Real", Soil_EvapZmax="Real", Soil_REW="Real", Soil_Kex="Real", Soil_fwcc="Real", Soil_fWrelExp="Real", Soil_fevap="Real",
+             Crop_CalendarType="Int", Crop_Senescence="Real", IrrMngt_IrrMethod="Int", IrrMngt_WetSurf="Real", FieldMngt_Mulches="Bool",
+             FieldMngt_fMulch="Real", FieldMngt_MulchPct="Real", NewCond_DAP="Int", NewCond_Wsurf="Real", NewCond_EvapZ="Real", NewCond_Stage2="Bool",
+             NewCond_th=_PA, NewCond_DelayedCDs="Int", NewCond_GDDcum="Real", NewCond_DelayedGDDs="Real", NewCond_CCxW="Real", NewCond_CCadj="Real",
+             NewCond_CCxAct="Real", NewCond_CC="Real", NewCond_PrematSenes="Bool", NewCond_SurfaceStorage="Real", NewCond_Wstage2="Real",
+             NewCond_Epot="Real", et0="Real", Infl="Real", Rain="Real", Irr="Real", growing_season="Bool")
+_SE_MASS = "wsum(prof.dz, NewCond_th, n) + EsAct + NewCond_SurfaceStorage == old(wsum(prof.dz, NewCond_th, n)) + old(NewCond_SurfaceStorage)"
+_SE_COMMON = [
+    ("budget", "EsAct + ToExtract == EsPot"),
+    ("lower", "forall(j, 0, n, prof.th_dry[j] <= NewCond_th[j])"),
+    ("evapz", "Soil_EvapZmin <= NewCond_EvapZ and NewCond_EvapZ <= Soil_EvapZmax + 0.001"),
+    ("ws2", "NewCond_Wstage2 >= 0"),
+]
+contract(SOL + "soil_evaporation.py", "soil_evaporation",
+         params=_SE_P, ghost=GHOST_N,
+         requires=WF() + [
+             WATER_INV("NewCond_th"), "n >= 2",
+             "ClockStruct_EvapTimeSteps >= 1",
+             "0 < Soil_EvapZmin and Soil_EvapZmin <= Soil_EvapZmax and Soil_EvapZmax + 0.001 <= prof.dzsum[n-2]",
+             "0 <= Soil_REW and Soil_REW < " + _REWLB.format(z="Soil_EvapZmin"),
+             "Soil_Kex >= 0", "0 <= Soil_fwcc and Soil_fwcc <= 100", "Soil_fevap != 0",
+             "0 <= NewCond_CCxW and NewCond_CCxW <= 1", "0 <= NewCond_CCadj and NewCond_CCadj <= 1", "0 <= NewCond_CCxAct and NewCond_CCxAct <= 1",
+             "0 <= NewCond_CC", "et0 >= 0",
+             "0 <= FieldMngt_fMulch and FieldMngt_fMulch <= 1", "0 <= FieldMngt_MulchPct and FieldMngt_MulchPct <= 100",
+             "0 <= IrrMngt_WetSurf and IrrMngt_WetSurf <= 100",
+             "NewCond_SurfaceStorage >= 0", "NewCond_Wsurf >= 0", "NewCond_Wstage2 >= 0",
+             "Soil_EvapZmin <= NewCond_EvapZ and NewCond_EvapZ <= Soil_EvapZmax + 0.001",
+             "implies(growing_season, Crop_CalendarType == 1 or Crop_CalendarType == 2)",
+         ],
+         returns=[("Epot", "Real"), ("th_out", _PA), ("Stage2", "Bool"), ("Wstage2", "Real"), ("Wsurf", "Real"), ("SS", "Real"), ("EvapZ", "Real"),
+                  ("EsAct", "Real"), ("EsPot", "Real")],
+         ensures=[
+             ("C04.evap_pot_nonneg", "EsPot >= 0 and Epot == EsPot"),
+             ("C04.evap_act_le_pot", "EsAct <= EsPot"),
+             ("C01.evap_mass", "wsum(prof.dz, th_out, n) + SS + EsAct == old(wsum(prof.dz, NewCond_th, n)) + NewCond_SurfaceStorage"),
+             ("C03.evap_lower", "forall(j, 0, n, prof.th_dry[j] <= th_out[j])"),
+             ("C03.evap_ponding", "0 <= SS and SS <= NewCond_SurfaceStorage"),
+             ("C12.evap_in_place", "same(th_out, NewCond_th)"),
+             ("C03.evap_state", "Soil_EvapZmin <= EvapZ and EvapZ <= Soil_EvapZmax + 0.001 and Wstage2 >= 0 and Wsurf >= 0"),
+         ],
+         loops={
+             "L1": dict(invariant=_SE_COMMON + [
+                 ("range", "-1 <= comp and comp <= comp_sto and comp_sto <= n - 1"),
+                 ("pot", "ExtractPotStg1 >= 0 and ToExtract >= ExtractPotStg1 and EsPot >= 0"),
+                 ("mass", _SE_MASS.format(e="entry_L1_EsAct")),
+                 ("ss", "NewCond_Wsurf >= 0 and EsAct >= entry_L1_EsAct"),
+             ], decreases="comp_sto - comp"),
+             "L2": dict(invariant=_SE_COMMON + [
+                 ("remaining", "ToExtract >= Edt * (ClockStruct_EvapTimeSteps - jj) and Edt >= 0 and EsPot >= 0"),
+                 ("mass", _SE_MASS.format(e="entry_L2_EsAct")),
+             ]),
+             "L2.1": dict(invariant=_SE_COMMON + [
+                 ("wrel", "Wupper - Wlower > 0 and Wrel >= 0"),
+                 ("keep", "ToExtract >= Edt * (ClockStruct_EvapTimeSteps - jj) and Edt >= 0 and EsPot >= 0 and 0 <= jj and jj < ClockStruct_EvapTimeSteps"),
+                 ("mass", _SE_MASS.format(e="entry_L2_EsAct")),
+             ], decreases="Soil_EvapZmax - NewCond_EvapZ", decreases_step=0.001),
+             "L2.2": dict(invariant=_SE_COMMON + [
+                 ("range", "-1 <= comp and comp <= comp_sto and comp_sto <= n - 1"),
+                 ("stg2", "ToExtractStg2 >= 0 and ToExtract >= Edt * (ClockStruct_EvapTimeSteps - jj - 1) + ToExtractStg2 and Edt >= 0 and EsPot >= 0 and 0 <= jj and jj < ClockStruct_EvapTimeSteps"),
+                 ("mass", _SE_MASS.format(e="entry_L2_EsAct")),
+             ], decreases="comp_sto - comp"),
+         },
+         assigns=["NewCond_th[*]"],
+         options=dict(merge_limit=None, reads_only_if={"FieldMngt_fMulch": "FieldMngt_Mulches", "FieldMngt_MulchPct": "FieldMngt_Mulches",
+                                                       "IrrMngt_WetSurf": "Irr > 0 and IrrMngt_IrrMethod != 4"}),
+         props=("C01", "C03", "C04", "C12", "C16", "C20"))
